@@ -21,8 +21,8 @@ theorem ancestor_is_refused (E : Engine) (d : Defects) (cx : Ctx) (fuel t : Nat)
 /-- The dirtiness check refuses to walk a dependency chain that returns to a file already on
 the path. -/
 theorem check_detects_cycle (ood : Bool) (R n : Nat) (w : World) (c : List Nat) (f mx : Nat) (seen : List Nat)
-    (h : f ∈ seen) : isDirty ood R (n + 1) w c f mx seen = (.cyclic, w, c) := by
-  simp (config := { zeta := true, zetaHave := true }) only [isDirty, h, if_true]
+    (h : f ∈ seen) : isDirty ood R (n + 1) w c f mx seen none = (.cyclic, w, c) := by
+  simp (config := { zeta := true, zetaHave := true }) only [isDirty, Option.getD_none, h, if_true]
 
 /-- … and that verdict leaves `builder::run` with the cyclic-dependency status. -/
 theorem cyclic_verdict_status (E : Engine) (d : Defects) (cx : Ctx) (fuel t : Nat) (w w' : World)
